@@ -719,6 +719,7 @@ func (fx *FnCtx) applyCall(st *State, ci *calleeInfo, recv *Val, args []Val, at 
 			}
 		}
 		for _, c := range cas {
+			fx.stmtAssertHit[c] = true
 			ce := fx.env(st)
 			ce.bound = map[string]Val{}
 			for k, v := range cenv.named {
